@@ -34,13 +34,13 @@ ASSUMPTIONS = [
     "contracts: c_rv_from_elements writes K*RV(t-t0,P,e,omega,M0) (RV uninterpreted); dgetrf/dgetri: fresh inverse with X.X^-1 = I, info = 0 (SPD input); LOG/POW uninterpreted",
     "trusted lemmas linking the cut points: Woodbury identity, ln det(2 pi B) = sum ln(2 pi |u_nn|) for an LU factor; Gaussian marginalisation",
     "prior distributions are stubs with symbolic mean/std and unit; pymc's evaluation of the parameters (float32) is outside",
-    "bounds: n_epochs <= 3, poly_trend <= 2, n_offsets <= 1, chunk rows <= 2 (quick); n_epochs <= 4, poly_trend <= 3, n_offsets <= 2 (thorough)",
+    "bounds: n_epochs <= 3, poly_trend <= 2, n_offsets <= 1, chunk rows <= 2 (quick); n_epochs <= 5, poly_trend <= 3, n_offsets <= 2, chunk rows <= 3 (thorough)",
 ]
 
 
 def bounds(tier):
-    return {"n_epochs": [1, 3 if tier == "quick" else 4], "poly_trend": [1, 2 if tier == "quick" else 3], "n_offsets": [0, 1 if tier == "quick" else 2],
-            "K_prior": ["default (FixedCompanionMass)", "custom Normal"], "chunk_rows": [1, 2], "units": ["km/s", "symbolic scales"], "P_unit": ["day", "year", "symbolic"]}
+    return {"n_epochs": [1, 3 if tier == "quick" else 5], "poly_trend": [1, 2 if tier == "quick" else 3], "n_offsets": [0, 1 if tier == "quick" else 2],
+            "K_prior": ["default (FixedCompanionMass)", "custom Normal"], "chunk_rows": [1, 2 if tier == "quick" else 3], "units": ["km/s", "symbolic scales"], "P_unit": ["day", "year", "symbolic"]}
 
 
 def shapes(tier):
@@ -51,12 +51,19 @@ def shapes(tier):
     for nt, npoly, noff in base:
         for K in ("default", "normal"):
             out.append({"nt": nt, "poly": npoly, "noff": noff, "K": K, "units": "plain", "P_unit": "day", "tref": "default" if (nt + npoly) % 2 else "explicit", "rows": 1})
+    if tier == "thorough":
+        out.append({"nt": 5, "poly": 2, "noff": 0, "K": "default", "units": "plain", "P_unit": "day", "tref": "explicit", "rows": 1})
+        out.append({"nt": 5, "poly": 1, "noff": 1, "K": "default", "units": "plain", "P_unit": "day", "tref": "default", "rows": 1})
+        out.append({"nt": 4, "poly": 2, "noff": 1, "K": "default", "units": "plain", "P_unit": "day", "tref": "default", "rows": 2})
+        out.append({"nt": 3, "poly": 2, "noff": 1, "K": "default", "units": "plain", "P_unit": "day", "tref": "default", "rows": 3})
     out.append({"nt": 2, "poly": 1, "noff": 0, "K": "default", "units": "plain", "P_unit": "day", "tref": "default", "rows": 2})
     out.append({"nt": 2, "poly": 2, "noff": 1, "K": "default", "units": "plain", "P_unit": "day", "tref": "explicit", "rows": 2})
     # unit handling of the prior slots (V2 only needs the constructor + one row)
     for K in ("default", "normal"):
         out.append({"nt": 2 if K == "default" else 1, "poly": 2, "noff": 1 if K == "default" else 0, "K": K, "units": "sym", "P_unit": "day", "tref": "default", "rows": 1, "slots_only": True})
     out.append({"nt": 1, "poly": 1, "noff": 0, "K": "default", "units": "plain", "P_unit": "year", "tref": "default", "rows": 1, "slots_only": True})
+    # reference epoch disabled (t_ref=False): times enter as absolute BMJD
+    out.append({"nt": 2, "poly": 2, "noff": 0, "K": "normal", "units": "plain", "P_unit": "day", "tref": "false", "rows": 1})
     # call history: the prior object was used with another data set (other epochs, values, RV unit) before
     out.append({"nt": 2, "poly": 2, "noff": 0, "K": "normal", "units": "plain", "P_unit": "day", "tref": "default", "rows": 1, "history": "prior_reused"})
     out.append({"nt": 1, "poly": 1, "noff": 0, "K": "default", "units": "sym", "P_unit": "day", "tref": "default", "rows": 1, "slots_only": True, "history": "prior_reused"})
@@ -151,7 +158,7 @@ def vcs_marginal(sink, path, S, shape, pb, rows, h, ll, res, prop_prefix=""):
     desc = describe_factory(pb, rows, shape)
     pref = prefer_nice(pb, rows)
     data = pb["data"]
-    tref = data._t_ref_bmjd
+    tref = pb.get("tref_spec", data._t_ref_bmjd)     # the prescribed epoch, not the one the code stored
     t_cells = kernel.cells1(data._t_bmjd, nt)
     y_cells = kernel.cells1(data.rv.value, nt)
     err_cells = kernel.cells1(data.rv_err.value, nt)
@@ -311,6 +318,8 @@ def build_real_problem(shape, m):
     # time (per-source t_ref values are not carried over), so an explicit t_ref is only realisable for a single source
     if shape.get("tref") == "explicit" and not noff:
         tref = Time(58000.0 + (f(m["t_ref"]) if "t_ref" in m else -3.3), format="mjd", scale="tcb")
+    if shape.get("tref") == "false" and not noff:
+        tref = False
     srcs = []
     tt = 58000.0 + t
     if noff:
@@ -361,7 +370,7 @@ def oracle_ll(shape, rp, prior_vals=None):
     prior = rp["prior"]
     du = rp["dunit"]
     t, y, err = rp["t"], rp["y"], rp["err"]
-    tref = rp["tref"].tcb.mjd if rp["tref"] is not None else t.min()
+    tref = 0.0 if rp["tref"] is False else (rp["tref"].tcb.mjd if rp["tref"] is not None else t.min())
     out = []
     names = ["K", "v0"] + ["dv0_%d" % k for k in range(1, noff + 1)] + ["v%d" % j for j in range(1, npoly)]
     for P, e, om, M0, s in rp["rows"]:
